@@ -1,6 +1,6 @@
 (* Executable comparison functions used by the correspondence checks (run under vm_compute). *)
 From Coq Require Import ZArith.
-From Join Require Import Tok Names Ast Ir Print Gen Comp Std Denote Concrete Spec.
+From Join Require Import Tok Names Ast Ir Print Gen Comp Std Denote Concrete Spec SpecOpts.
 
 Fixpoint first_diff (i : N) (a b : list string) : N :=      (* 0 = equal; k+1 = first difference at index k *)
   match a, b with
@@ -30,7 +30,9 @@ Definition check_blocks (l : list (operand * bool)) : N :=
 Definition model_tokens (cfg : config) (inp : input) : list string :=
   match gen cfg inp with Ok e => print e | ConfigError n => ["<ConfigError>"] | InternalBug n => ["<InternalBug>"] end.
 
-(* ---- model vs model: den (gen p) against spec p under a concrete world (a test, not a proof) ---- *)
+(* ---- model vs model: den (gen p) against the reference semantics under a concrete world (a test, not a proof).
+   The reference is SpecOpts.spec_opts at the options the input carries; with default options that IS Spec.spec
+   (SpecOptsDefault.spec_opts_default). ---- *)
 Definition c_den (inp : input) (e : rexpr) (ρ : env) : comp dval :=
   den (user_names inp) c_msem c_dotsem c_callsem c_await e ρ.
 Definition run_top (cfg : config) (c : comp dval) : comp val :=
@@ -58,6 +60,14 @@ Definition spec_run (cfg : config) (inp : input) (tbl : list opinfo) : list stri
   | Some sp => run_show tbl (Some "main") (run_top cfg (spec c_msem c_dotsem c_callsem c_await sp))
   | None => ["<NoSpec>"]
   end.
+(* the reference WITH the options the input carries (what the correspondence runs compare with) *)
+Definition spec_opts_run_as (tn : option string) (cfg : config) (inp : input) (tbl : list opinfo) : list string :=
+  match prepare cfg inp with
+  | Some sp => run_show tbl tn (run_top cfg (spec_opts c_msem c_dotsem c_callsem c_await (resolve cfg inp) sp))
+  | None => ["<NoSpec>"]
+  end.
+Definition spec_opts_run (cfg : config) (inp : input) (tbl : list opinfo) : list string :=
+  spec_opts_run_as (Some "main") cfg inp tbl.
 Definition model_code (cfg : config) (inp : input) (tbl : list opinfo) : N :=
   match gen cfg inp with
   | Ok e => run_code tbl (Some "main") (run_top cfg (c_den inp e empty_env))
@@ -65,7 +75,7 @@ Definition model_code (cfg : config) (inp : input) (tbl : list opinfo) : N :=
   end.
 (* 0 = agree and meaningful; 7000000+code = the model gave no meaning (ill-typed / stuck / unbound) *)
 Definition check_mm (cfg : config) (inp : input) (tbl : list opinfo) : N :=
-  match first_diff 0 (model_run cfg inp tbl) (spec_run cfg inp tbl) with
+  match first_diff 0 (model_run cfg inp tbl) (spec_opts_run cfg inp tbl) with
   | 0%N => match model_code cfg inp tbl with
            | 1%N | 2%N | 6%N | 100%N => (7000000 + model_code cfg inp tbl)%N
            | _ => 0%N
@@ -75,7 +85,7 @@ Definition check_mm (cfg : config) (inp : input) (tbl : list opinfo) : N :=
 Definition check_rt_as (tn : option string) (cfg : config) (inp : input) (tbl : list opinfo) (observed : list string) : N :=
   first_diff 0 (model_run_as tn cfg inp tbl) observed.
 Definition check_mm_as (tn : option string) (cfg : config) (inp : input) (tbl : list opinfo) : N :=
-  first_diff 0 (model_run_as tn cfg inp tbl) (spec_run_as tn cfg inp tbl).
+  first_diff 0 (model_run_as tn cfg inp tbl) (spec_opts_run_as tn cfg inp tbl).
 (* B: the model against what the compiled macro did *)
 Definition check_rt (cfg : config) (inp : input) (tbl : list opinfo) (observed : list string) : N :=
   first_diff 0 (model_run cfg inp tbl) observed.
